@@ -20,6 +20,7 @@ func init() {
 			{Name: "golden-files", Quick: 1, Thorough: 1, Run: c06Golden, Serial: true},
 			{Name: "65536-chunks-both-cookies", Quick: 2, Thorough: 6, Run: c06Huge},
 			{Name: "every-chunk-count", ExhaustiveN: func(t string) int { return len(chunkCounts(t)) }, RunIndexed: c06EveryCount},
+			{Name: "receiver-growth-x-stream-size", ExhaustiveN: growthCases, RunIndexed: func(c *Ctx, i int) { receiverGrowthCase(c, i, true) }},
 		},
 	})
 }
